@@ -227,6 +227,46 @@ fn probe_collision() -> Result<(), Failure> {
     dedup_contract(&low.registry, &BTreeMap::new(), &SettingsSpec::default(), &mut st, &decoded).map(|_| ())
 }
 
+/// Regression probe (seeded change C04c): an outer same-path family with three shapes over a nested same-path
+/// family; shapes 1 and 2 hold X, shape 3 equals shape 2 except for holding Y; the nested field comes first.
+/// Every order of the five roots.
+fn probe_nested_families() -> Result<(), Failure> {
+    use crate::program::*;
+    let fld = |n: &str, t: Ty| FieldDef { name: Some(n.into()), ty: t, compact_attr: false, docs: vec![] };
+    let inner = |t: Prim| Def {
+        path: vec!["m".into(), "Inner".into()],
+        params: vec![],
+        docs: vec![],
+        body: Body::Struct(Fields::Named(vec![fld("a", Ty::Prim(t))])),
+        config_inner: None,
+    };
+    let outer = |i: usize, t: Prim| Def {
+        path: vec!["m".into(), "Outer".into()],
+        params: vec![],
+        docs: vec![],
+        body: Body::Struct(Fields::Named(vec![fld("inner", Ty::Seq(SeqKind::Vec, Box::new(Ty::Def(i, vec![])))), fld("b", Ty::Prim(t))])),
+        config_inner: None,
+    };
+    let defs = vec![inner(Prim::U8), inner(Prim::U16), outer(0, Prim::U8), outer(0, Prim::U16), outer(1, Prim::U16)];
+    let mut orders: Vec<Vec<usize>> = vec![vec![]];
+    for _ in 0..5 {
+        orders = orders
+            .into_iter()
+            .flat_map(|a| (0..5).filter(|x| !a.contains(x)).map(|x| { let mut b = a.clone(); b.push(x); b }).collect::<Vec<_>>())
+            .collect();
+    }
+    for order in orders {
+        let prog = Program { name_style: 0, defs: defs.clone(), roots: order.iter().map(|d| Ty::Def(*d, vec![])).collect() };
+        let low = crate::lower::lower(&prog);
+        let text = prog.to_text();
+        let mut st = Stats::default();
+        let decoded = || json!({"program": text});
+        dedup_contract(&low.registry, &BTreeMap::new(), &SettingsSpec::default(), &mut st, &decoded)
+            .map_err(|f| f.sig("regress:nested-families-three-shapes"))?;
+    }
+    Ok(())
+}
+
 impl Property for C04 {
     fn id(&self) -> &'static str {
         "C04"
@@ -255,6 +295,11 @@ impl Property for C04 {
             signature: "dedup:renamed-path-collides",
             what: "ensure_unique_type_paths renames m::Foo to m::Foo1 although another type already lives at m::Foo1; generation still fails with DuplicateTypePath and a second run renames again",
             run: Box::new(probe_collision),
+        },
+        Probe {
+            signature: "regress:nested-families-three-shapes",
+            what: "m::Outer{inner: Vec<Inner>, b} in three shapes over m::Inner{a} in two shapes, every order of the roots",
+            run: Box::new(probe_nested_families),
         }]
     }
     fn strata(&self, tier: Tier) -> Vec<Stratum> {
